@@ -499,6 +499,17 @@ func VerifH10f() {
 func VerifH03s() {
 	K := vParam("K", 2)
 	stream := vStartup(vKV([]byte("user"), []byte("u")))
+	// AUTH=1: the server may ask for a clear-text password; the client sends it
+	// (right or wrong — the solver's choice) and pipelines what follows behind it
+	auth := vParam("AUTH", 0) == 1 && nondetBool()
+	if auth {
+		pw := []byte("pw")
+		if nondetBool() {
+			pw = []byte("no")
+		}
+		stream = vCat(stream, vMsgBytes('p', vCStr(pw)))
+		vReach("password-message-with-pipelined-messages-behind-it")
+	}
 	sawX := false
 	for k := 0; k < K; k++ {
 		switch vChoose(7) {
@@ -529,7 +540,14 @@ func VerifH03s() {
 	}
 	serve := func(chunk int) run {
 		w := &vWorld{parseMenu: -2, execMenu: 1}
-		srv, err := NewServer(w.parse, MessageBufferSize(64))
+		opts := []OptionFn{MessageBufferSize(64)}
+		if auth {
+			opts = append(opts, SessionAuthStrategy(ClearTextPassword(func(ctx context.Context, db, user, password string) (context.Context, bool, error) {
+				w.events = append(w.events, vEvent{kind: 'a', query: []byte(password)})
+				return ctx, password == "pw", nil
+			})))
+		}
+		srv, err := NewServer(w.parse, opts...)
 		vAssert("newserver-ok", err == nil)
 		c := vNewConn(stream)
 		c.in.chunk = chunk
